@@ -45,6 +45,39 @@ def stored_value_origin(an, prog, w):
     return ("opaque", "unrecognised extend source"), ("opaque", ""), None
 
 
+def write_sites(prog, an, ca):
+    """Cache writes as seen from the function that reports the parsed template: a write performed inside a
+    private helper (e.g. `fn register_templates(&mut self, t: &[Template])`) is lifted to each call site of the
+    helper, with the helper's parameters replaced by the caller's arguments.
+    -> list of dict(body, block, kind, adt, field, val, key, src, via)"""
+    out = []
+    for w in ca.writes:
+        if w["kind"] not in ("insert", "extend"):
+            continue
+        b = w["body"]
+        val, key, src = stored_value_origin(an, prog, w)
+        reports = any(s["rv"]["adt"].endswith("::FlowSetBody") for (_, _, s) in block_aggs(b))
+        depends_on_args = bool(find(val, lambda n: n[0] == "arg") or (src is not None and find(src, lambda n: n[0] == "arg" and n[1] > 1)))
+        callers = []
+        if not reports and b.kind != "Closure":
+            for cb in prog.bodies.values():
+                if cb.derived:
+                    continue
+                for blk, t, c in cb.calls():
+                    if c is not None and c.local and c.path == b.path and len(t["args"]) == b.arg_count:
+                        callers.append((cb, blk, t))
+        if callers and not reports:
+            for cb, blk, t in callers:
+                mapping = {i + 1: an.op(cb, a) for i, a in enumerate(t["args"])}
+                lv = an.simp(an.interp.subst(val, mapping))
+                lk = an.simp(an.interp.subst(key, mapping))
+                ls = an.simp(an.interp.subst(src, mapping)) if src is not None else None
+                out.append({"body": cb, "block": blk, "kind": w["kind"], "adt": w["adt"], "field": w["field"], "val": lv, "key": lk, "src": ls, "via": b.path, "w": w})
+        else:
+            out.append({"body": b, "block": w["block"], "kind": w["kind"], "adt": w["adt"], "field": w["field"], "val": val, "key": key, "src": src, "via": None, "w": w})
+    return out
+
+
 def is_template_parse_payload(an, prog, e, body, adt, field):
     """e (peeled of clones) = ok(<TemplateType as Parse>::parse(arg input)).1 [.templates elements]"""
     want = TPL_PARSERS.get(adt, {}).get(field)
@@ -112,8 +145,9 @@ def rule_template_reaches_cache(ctx, prog, an, rule, ca=None, only_adt=None):
         bodies = {}
         for w in ws:
             bodies.setdefault(w["body"].path, (w["body"], []))[1].append(w)
+        sites = [x for x in write_sites(prog, an, ca) if x["adt"] == adt]
         for field, variant in sorted(variants.items()):
-            fw = [w for w in ws if w["field"] == field and w["kind"] in ("insert", "extend")]
+            fw = [x for x in sites if x["field"] == field]
             if not fw:
                 ctx.ob(rule, adt, "write-site:%s" % field, False, "no overwriting write (insert/extend) into %s.%s" % (short, field))
                 continue
@@ -122,30 +156,38 @@ def rule_template_reaches_cache(ctx, prog, an, rule, ca=None, only_adt=None):
                 # Ok aggregates reporting this kind of template
                 oks = [(blk, i, s) for (blk, i, s) in block_aggs(b) if s["rv"]["adt"].endswith("::FlowSetBody") and s["rv"]["variant"] == variant]
                 if not oks:
-                    ctx.ob(rule, b.path, "reports:%s" % variant, False, "write into %s.%s but no FlowSetBody::%s is reported from this function" % (short, field, variant))
+                    ctx.ob(rule, adt, "reports:%s" % variant, False, "write into %s.%s at %s but no FlowSetBody::%s is reported from that function (nor from a caller of it)" % (short, field, b.path, variant))
                     continue
                 loops = b.sccs()
                 in_loop = [c for c in loops if w["block"] in c]
                 for (ob, i, s) in oks:
                     if in_loop:
                         comp = set(min(in_loop, key=len))
-                        # every cycle of the per-template loop must pass the write
                         from .c01 import has_cycle
                         bypass = has_cycle(b, comp - {w["block"]})
-                        # and the loop itself must cut entry -> Ok (it iterates the parsed templates)
-                        ctx.ob(rule, b.path, "written-on-every-iteration:%s.%s" % (short, field), not bypass,
-                               "the per-template loop has a path that skips the cache write (conditional insert): a parsed template may be reported but not cached" if bypass
+                        ctx.ob(rule, adt, "written-on-every-iteration:%s" % field, not bypass,
+                               "the per-template loop in %s has a path that skips the cache write (conditional insert): a parsed template may be reported but not cached" % b.path if bypass
                                else "every iteration of the per-template loop writes the cache", site=b.line(w["block"]))
                     else:
                         reach = b.reachable(0, without_blocks=(w["block"],))
-                        ctx.ob(rule, b.path, "written-before-reported:%s.%s" % (short, field), ob not in reach,
-                               "FlowSetBody::%s can be reported without passing the cache write at %s" % (variant, b.line(w["block"])) if ob in reach
-                               else "every path to the reported FlowSetBody::%s passes the cache write" % variant, site=b.line(ob))
-                    # reported = parsed
+                        ctx.ob(rule, adt, "written-before-reported:%s" % field, ob not in reach,
+                               "FlowSetBody::%s can be reported from %s without passing the cache write at %s" % (variant, b.path, b.line(w["block"])) if ob in reach
+                               else "every path to the reported FlowSetBody::%s passes the cache write%s" % (variant, (" (via helper %s)" % w["via"]) if w["via"] else ""), site=b.line(ob))
+                    # the helper itself must write unconditionally
+                    if w["via"]:
+                        hb = w["w"]["body"]
+                        hloops = [c for c in hb.sccs() if w["w"]["block"] in c]
+                        if hloops:
+                            from .c01 import has_cycle
+                            byp = has_cycle(hb, set(min(hloops, key=len)) - {w["w"]["block"]})
+                        else:
+                            rets = [x for x in hb.reachable(0, without_blocks=(w["w"]["block"],)) if hb.term(x)["k"] == "return"]
+                            byp = bool(rets)
+                        ctx.ob(rule, adt, "helper-writes-unconditionally:%s" % field, not byp, "helper %s %s" % (w["via"], "can return without writing" if byp else "always performs the write"))
                     rep = peel(an.op(b, s["rv"]["ops"][0]))
                     okp, _ = is_template_parse_payload(an, prog, rep, b, adt, field)
                     direct = rep[0] == "tfield" and rep[2] == 1 and rep[1][0] == "ok"
-                    ctx.ob(rule, b.path, "reported-is-parsed:%s" % variant, bool(okp and direct),
+                    ctx.ob(rule, adt, "reported-is-parsed:%s" % variant, bool(okp and direct),
                            "reported FlowSetBody::%s payload = %s" % (variant, canon(rep)[:200]), site=site(s["span"]))
 
 
@@ -186,27 +228,24 @@ def run(ctx, env):
             ctx.ob("R6.1", adt, "map-has-a-writer:%s" % f, (adt, f) in written, "no insert/extend found for %s.%s (templates would never be learned)" % (adt, f))
 
     # R6.2
-    for w in ca.writes:
-        if w["kind"] not in ("insert", "extend"):
-            continue
+    for w in write_sites(prog, an, ca):
         b = w["body"]
-        val, key, src = stored_value_origin(an, prog, w)
+        val, key, src = w["val"], w["key"], w["src"]
         v = peel(val)
         okp, pc = is_template_parse_payload(an, prog, v if src is None else peel(src), b, w["adt"], w["field"])
-        ctx.ob("R6.2", b.path, "value-is-parsed-template:%s.%s" % (w["adt"].rsplit("::", 1)[1], w["field"]), okp,
+        ctx.ob("R6.2", w["adt"], "value-is-parsed-template:%s" % w["field"], okp,
                "stored value = %s%s" % (canon(v)[:200], (" over " + canon(peel(src))[:200]) if src is not None else ""), site=b.line(w["block"]))
         k = peel(key)
         okk = k[0] == "field" and k[2] == "template_id" and canon(peel(k[1])) == canon(v)
-        ctx.ob("R6.2", b.path, "key-is-own-template_id:%s.%s" % (w["adt"].rsplit("::", 1)[1], w["field"]), okk,
+        ctx.ob("R6.2", w["adt"], "key-is-own-template_id:%s" % w["field"], okk,
                "key = %s" % canon(k)[:200], site=b.line(w["block"]))
         if src is not None:
-            # extend source: <templates>.templates.iter() with no truncating adaptor
-            s = peel(src)
-            oks = s[0] == "call" and s[2] is not None and s[2].npath in ("core::slice::<impl [T]>::iter", "std::slice::<impl [T]>::iter")
-            inner = peel(s[3][0]) if oks else None
+            s_ = peel(src)
+            oks = s_[0] == "call" and s_[2] is not None and s_[2].npath in ("core::slice::<impl [T]>::iter", "std::slice::<impl [T]>::iter")
+            inner = peel(s_[3][0]) if oks else None
             oks = bool(oks and inner is not None and inner[0] == "field" and inner[2] == "templates")
-            ctx.ob("R6.2", b.path, "all-templates-of-the-flowset:%s" % w["field"], oks,
-                   "extend source = %s" % canon(s)[:200], site=b.line(w["block"]))
+            ctx.ob("R6.2", w["adt"], "all-templates-of-the-flowset:%s" % w["field"], oks,
+                   "extend source = %s" % canon(s_)[:200], site=b.line(w["block"]))
     rule_valid_before_insert(ctx, prog, an, "R6.2", ca)
 
     rule_template_reaches_cache(ctx, prog, an, "R6.8", ca)
